@@ -397,6 +397,12 @@ def run(ctx, chk):
              "types): no guard, clamp or second opinion between the stored value and the caller (the copy is compared with its source through these accessors)")
     import rules as _rg
     _rg.check_field_getters(chk, "C11.getters", prog, eff, names=None)
+    chk.rule("C11.payload-copy", "the builders the copy of a definite string goes through attach a fresh block of exactly the source's length "
+             "filled by memcpy / memmove of that length - byte for byte, whatever the bytes are (a string routine stops at the first NUL; shared "
+             "with C16.reach)")
+    from props.c16 import check_builders_copy
+    check_builders_copy(chk, "C11.payload-copy", prog, eff, (("cbor_build_stringn", "param"),), "cbor_string_set_handle")
+    check_builders_copy(chk, "C11.payload-copy", prog, eff, (("cbor_build_bytestring", "param"),), "cbor_bytestring_set_handle")
     chk.rule("C11.int-makers", "the integer builders the copy goes through return an item of their width holding the whole parameter "
              "(a builder whose parameter is narrower than its width copies a 64-bit value modulo 2^32; shared with C03.int-makers)")
     from props.c03 import check_int_makers
